@@ -74,22 +74,43 @@ def _through_field(e, fields):
 
 def alias_roots(g, node, not_through=(), extra=()):
     """backward closure over container-preserving edges: every node the container at `node` is (a view of).
-    Edges that project one of the fields in `not_through` are not followed (that field is another component)."""
+    Edges that project one of the fields in `not_through` are not followed (that field is another component).
+    Calls are matched: having walked back into a callee through its return value, the walk leaves it only
+    through the parameters of that same call site."""
     rev = _rev(g)
+    start = (node, ())
+    seen_states = {start}
     seen = {node}
-    dq = deque([node])
+    dq = deque([start])
     while dq:
-        n = dq.popleft()
+        n, stack = dq.popleft()
         for (a, e) in rev.get(n, ()):
-            if a in seen:
-                continue
             if isinstance(a, tuple) and a[0] in ("CALLRES",):
                 continue
             if not_through and _through_field(e, not_through):
                 continue
-            if _preserving(g, e, False, extra):
-                seen.add(a)
-                dq.append(a)
+            if not _preserving(g, e, False, extra):
+                continue
+            ns = stack
+            if e.cs is not None:
+                kind, site, body = e.cs
+                env = isinstance(site, tuple) and site and site[0] == "env"
+                if kind == "out":
+                    ns = (stack + ((site, body),))[-4:]
+                elif stack:
+                    tsite, tbody = stack[-1]
+                    if tbody == body:
+                        tenv = isinstance(tsite, tuple) and tsite and tsite[0] == "env"
+                        if tsite == site or env or tenv:
+                            ns = stack[:-1]
+                        else:
+                            continue
+            st = (a, ns)
+            if st in seen_states:
+                continue
+            seen_states.add(st)
+            seen.add(a)
+            dq.append(st)
     return seen
 
 
